@@ -47,6 +47,13 @@ type shapeT struct {
 	Tag  string
 }
 
+// shapeD: a date-only column followed by a time column without a format tag (the default layout).
+type shapeD struct {
+	Day  time.Time `format:"2006-01-02"`
+	At   time.Time
+	Note string
+}
+
 type shapeN struct {
 	Name  string
 	Level levelT
@@ -236,6 +243,14 @@ func validCsv(rng *rand.Rand, shape string, header bool, n int) []byte {
 		for i := 0; i < n; i++ {
 			w.Write([]string{strPool[rng.Intn(len(strPool))], strconv.FormatFloat(rng.NormFloat64(), 'g', -1, 64), time.Date(2020, 1, 1+rng.Intn(300), 0, 0, 0, 0, time.UTC).Format("2006-01-02 15:04:05")})
 		}
+	case "D":
+		if header {
+			w.Write([]string{"Day", "At", "Note"})
+		}
+		for i := 0; i < n; i++ {
+			d := time.Date(2020, 1, 1+rng.Intn(300), rng.Intn(24), rng.Intn(60), rng.Intn(60), 0, time.UTC)
+			w.Write([]string{d.Format("2006-01-02"), d.Format("2006-01-02 15:04:05"), strPool[rng.Intn(len(strPool))]})
+		}
 	case "T":
 		if header {
 			w.Write([]string{"Name", "the note", "Tag"})
@@ -382,7 +397,7 @@ func (c19) Components() (real, stub []string) {
 		[]string{"simulated network: http.DefaultTransport replaced by a scripted RoundTripper (status, body, transport error, body error at an offset)", "FragReader byte source", "consumer task", "scheduler: simrt controller"}
 }
 
-var c19Readers = []string{"csv-header:A", "csv-header:B", "csv-header:S", "csv-header:N", "csv-noheader:A", "csv-noheader:B", "csv-noheader:S", "csv-noheader:N", "json", "tiingo-getsince", "tiingo-lastdate", "file", "csv-header:T", "csv-noheader:T"}
+var c19Readers = []string{"csv-header:A", "csv-header:B", "csv-header:S", "csv-header:N", "csv-noheader:A", "csv-noheader:B", "csv-noheader:S", "csv-noheader:N", "json", "tiingo-getsince", "tiingo-lastdate", "file", "csv-header:T", "csv-noheader:T", "csv-header:D", "csv-noheader:D"}
 
 func (c19) Gen(rng *rand.Rand, tier string, k int) *Case {
 	c := &Case{Family: "ext", Entity: c19Readers[rng.Intn(len(c19Readers))]}
@@ -567,6 +582,10 @@ func (c19) Run(c *Case, st *Stats) []Violation {
 				compare = csvCase[shapeN](c, true, newReader, &srcReader, add)
 			case "csv-noheader:N":
 				compare = csvCase[shapeN](c, false, newReader, &srcReader, add)
+			case "csv-header:D":
+				compare = csvCase[shapeD](c, true, newReader, &srcReader, add)
+			case "csv-noheader:D":
+				compare = csvCase[shapeD](c, false, newReader, &srcReader, add)
 			case "csv-header:T":
 				compare = csvCase[shapeT](c, true, newReader, &srcReader, add)
 			case "csv-noheader:T":
